@@ -252,7 +252,7 @@ func init() {
 			Name: "sampled", Weight: 3,
 			N: func(tier string, seed uint64) uint64 {
 				if tier == "thorough" {
-					return 2000000
+					return 10000000
 				}
 				return 150000
 			},
